@@ -236,6 +236,14 @@ func sizeProgram(c sizeCase) (stmts []string, expect []string) {
 		}
 		stmts = append(stmts, "f = ("+strings.Join(ps, ", ")+") -> "+ps[0]+" + "+ps[c.K-1], "f("+strings.Join(as, ", ")+")")
 		expect = append(expect, "function", "6")
+	case "parameters-unused": // the count alone: too few arguments must be an arity error, the right number works
+		ps, as := []string{}, []string{}
+		for i := 0; i < c.K; i++ {
+			ps = append(ps, letters("p", i))
+			as = append(as, "3")
+		}
+		stmts = append(stmts, "f = ("+strings.Join(ps, ", ")+") -> 7", "f()", "f("+strings.Join(as[1:], ", ")+")", "f("+strings.Join(as, ", ")+")")
+		expect = append(expect, "function", "!arity mismatch", "!arity mismatch", "7")
 	case "session-statements": // k small statements one after the other
 		for i := 0; i < c.K; i++ {
 			stmts = append(stmts, fmt.Sprintf("s = %d + 1", i%100))
@@ -269,6 +277,11 @@ func runSizeCase(c sizeCase) (why string, refused int) {
 			continue
 		case vr.Err != "" && refused > 0:
 			// depends on a statement that was refused: not pinned
+			continue
+		case strings.HasPrefix(expect[i], "!"):
+			if string(vr.Err) != expect[i][1:] {
+				return fmt.Sprintf("statement %d (%s...): %q (value %s) instead of the error %q or a refusal", i, clipN(src, 40), vr.Err, clipS(ref.Str(vr.Val)), expect[i][1:]), refused
+			}
 			continue
 		case vr.Err != "":
 			return fmt.Sprintf("statement %d (%s...): runtime error %q instead of %s or a refusal", i, clipN(src, 40), vr.Err, expect[i]), refused
@@ -309,6 +322,18 @@ func c15Programs(t *testing.T, rec *ev.Recorder, ks []int, seed int) {
 				t.Fatalf("%s x %d: %s", shape, k, why)
 			}
 			rec.Case(fmt.Sprintf("size %s x %d", shape, k), true, "size-program", fmt.Sprintf("refused:%v", refused > 0))
+		}
+	}
+	// the exact boundaries of the 15/16 bit fields, per shape that counts something
+	for _, shape := range []string{"parameters-unused", "parameters", "locals"} {
+		for _, k := range []int{32767, 32768, 32769, 65535, 65536, 65537} {
+			c := sizeCase{Shape: shape, K: k}
+			why, refused := runSizeCase(c)
+			if why != "" {
+				ev.Repro("C15", "size", c)
+				t.Fatalf("%s x %d: %s", shape, k, why)
+			}
+			rec.Case(fmt.Sprintf("size %s x %d", shape, k), true, "size-boundary", fmt.Sprintf("refused:%v", refused > 0))
 		}
 	}
 }
